@@ -120,18 +120,19 @@ NA_REASON = "not claimed"
 ADDED = {
  "C02": " Also: payloads whose Adler-32 halves sit on their boundary values in the three zlib modes; streams of short-code blocks larger than the 64 KiB staging buffer with input/output ending at every byte near the boundary; the decoder told the window size (hist_bits); and round trips in the documented build variants IGZIP_HIST_SIZE=8192 and LONGER_HUFFTABLE (library and harness rebuilt with the define).",
  "C01": " Later input classes: constant runs of every length, Adler-32 boundary inputs, mixes of long far-match symbols, alphabets with gaps of exact sizes (zero runs of 3, 10-12, 137-140, 148-150 code lengths), and near-miss far matches (KEY x CONT ... KEY CONT at the first and last distance of every distance code) under the AVX-512, AVX2 and base levels; a long run beginning at every fill level of the smallest token buffers; single matches at every length-code edge; one far match per distance code; hist_bits 1-8 with 1-bit literals in groups; whole stored sub-blocks with the output at the bound.",
- "C12": " The clause 'any table-driven product of c with a byte equals the field product' is also checked literally: every gf_vect_mul variant (base, dispatched, sse, avx) over all 256 byte values at two lane positions for every constant.",
+ "C10": " Later: inputs that begin with a long 0x00 / 0xFF run (the one-shot path's dedicated routine) with avail_out swept from 0 past the size needed.",
+ "C12": " Tables are also built into slots at odd addresses. The clause 'any table-driven product of c with a byte equals the field product' is also checked literally: every gf_vect_mul variant (base, dispatched, sse, avx) over all 256 byte values at two lane positions for every constant.",
  "C11": " Later: verifier parents made of 1- and 2-byte stored blocks; producer with a flush left pending and completed together with more input (coarse sweep plus the probe-located staged-marker family of C14) and under the other CPU levels on worst-case Adler inputs.",
- "C19": " The same headers are also fed through isal_inflate (its own reader path) at every split point, with and without header CRC, and zlib headers announcing a dictionary; judged by TraceInflate.",
+ "C19": " The same headers are also fed through isal_inflate (its own reader path) at every split point, with and without header CRC, and zlib headers announcing a dictionary; judged by TraceInflate. Every value of each fixed header byte in turn (magic, method, flags; zlib CMF).",
  "C06": " Later families: mutants of the library's own streams under model-guided schedules, deep incomplete distance sets, one-shot decoding at every output size, the exact 'repeat previous length first' fault, Adler-boundary payloads with every trailer bit flipped, invalid look-back streams one-shot at every output size under every kernel.",
  "C17": " hist_bits is also chosen after the dictionary calls (only the level is documented as needed before them); dictionaries longer than the window with data referring to the oldest bytes of their last 32 KiB (both codecs); window restarts with unaligned level buffers. spec/HashWindow.tla (position arithmetic of the match finders) is model-checked in four variants.",
- "C18": " The table installation attempted after every call alternates the static and the custom table, and the first call's output room is swept so that the block header is left half written behind a gzip/zlib header.",
+ "C18": " The table installation attempted after every call alternates the static and the custom table, and the first call's output room is swept so that the block header is left half written behind a gzip/zlib header. Literal-gap histograms (gaps of 3, 10-12, 137-140, 148, 149) for the subset builder.",
  "C05": " spec/DeflateBuffer.tla (byte budget of the internal buffer when a stored block is admitted) is model-checked with the two repairs as switches. Later families: every input length with the smallest level buffers (buffer ending at an inaccessible page), level buffers at unaligned addresses, stored tails waiting in the internal buffer behind a pending wrapper header, and the level-3 look-ahead queued behind a pending stored block (two probe runs of the library locate the block length and input position, avail_out is swept around it).",
  "C07": " Later families: model-guided schedules (least-visited environment choice from the current state of the TLA+ control machine), packed streams around the 64 KiB staging buffer, long matches and stored blocks resuming at its end, small-then-huge calls.",
  "C08": " Vector counts below the documented minimum, including negative ones, must be refused by every variant.",
- "C09": " The Cauchy recover sweeps are repeated under every simulated CPU level (base, sse, avx, avx2, avx512, avx2+gfni) through the re-assembled resolvers.",
+ "C09": " The Cauchy recover sweeps are repeated under every simulated CPU level (base, sse, avx, avx2, avx512, avx2+gfni) through the re-assembled resolvers, with a different block length per level.",
  "C14": " A FULL_FLUSH request that ran out of output space and is kept by every following call makes the marker written for that input position a full-flush point as well (rule D7 for pending requests); the first call's output size is swept around the compressed size learnt from a probe run. spec/FullFlushHistory.tla is the design-level model (repaired design satisfies NoCrossReference; the original and half-repaired ones violate it with the call histories this family replays). FULL_FLUSH beyond 64 KiB in near-window-periodic data.",
- "C15": " Determinism pairs also vary the prior contents of the output buffer (zero / 0xFF / random) over ordinary and long constant-run inputs, one-shot and streaming, and the scratch hash table inside isal_huff_histogram (left by earlier calls, constant fills, 30000 short inputs whose repeated sequence first occurs inside a match).",
+ "C15": " Determinism pairs also vary the prior contents of the output buffer (zero / 0xFF / random) over ordinary and long constant-run inputs, one-shot and streaming, and the scratch hash table inside isal_huff_histogram (left by earlier calls, constant fills, 30000 short inputs whose repeated sequence first occurs inside a match), the isal_dict structure, and the decompressor state (valid streams and streams using an unassigned code of an incomplete set).",
  "C16": " Closure rule R2 (PCLMULQDQ => SSE4.1) was dropped: the two bits are architecturally independent (19452 configurations).",
 }
 
